@@ -649,3 +649,74 @@ Proof.
   - cbn [N.eqb andb]. rewrite list_eqb_refl. reflexivity.
   - cbn [N.eqb andb]. rewrite list_eqb_refl. reflexivity.
 Qed.
+
+(* ---------- C02: the REA checker accepts the model's observation of every well-formed packet, on all three frame paths ---------- *)
+Require Import RP.Spec.Frag RP.Lemmas.PacketLemmas RP.Lemmas.Reasm RP.Lemmas.FragWf.
+Definition flN (b: builder) : N := match frames_left b with Val n => n | _ => 0 end.
+
+Lemma last_nonempty {A} (l: list A) x d d' : last (x :: l) d = last (x :: l) d'.
+Proof. revert x. induction l as [|y l IH]; intros x; [reflexivity|]. cbn [last]. apply (IH y). Qed.
+
+Lemma rea_feed_trace : forall fs m b k bs lefts early,
+  feed_trace b fs = Val bs ->
+  (forall x, In x (removelast (b :: bs)) -> build x = Fail MissingFrames) ->
+  (forall x, In x bs -> exists n, frames_left x = Val n) ->
+  rea_feed m b k fs lefts early = Val (rev lefts ++ map flN bs, early, last (b :: bs) b).
+Proof.
+  induction fs as [|f t IH]; intros m b k bs lefts early Ht Hb Hl.
+  - cbn in Ht. inversion Ht; subst bs. cbn [rea_feed map last]. rewrite rev_append_rev, !app_nil_r. reflexivity.
+  - cbn [feed_trace] in Ht. destruct (add_frame b f) as [b'| | |] eqn:Ea; try discriminate. cbn [bind] in Ht.
+    destruct (feed_trace b' t) as [bs'| | |] eqn:Et; try discriminate. cbn [bind] in Ht. inversion Ht; subst bs. clear Ht.
+    cbn [rea_feed]. assert (Hbb: build b = Fail MissingFrames) by (apply Hb; cbn [removelast]; left; reflexivity).
+    rewrite Hbb. assert (Ee: (if probe m k then early else early) = early) by (destruct (probe m k); reflexivity). rewrite Ee.
+    rewrite Ea. cbn [bind]. destruct (Hl b' (or_introl eq_refl)) as [n Hn]. rewrite Hn. cbn [bind].
+    rewrite (IH m b' (S k) bs' (n :: lefts) early Et).
+    + cbn [rev map]. unfold flN at 2. rewrite Hn. rewrite <- app_assoc. cbn [app]. change (last (b :: b' :: bs') b) with (last (b' :: bs') b). f_equal. f_equal. apply last_nonempty.
+    + intros x Hx. apply Hb. cbn [removelast]. right. exact Hx.
+    + intros x Hx. apply Hl. right. exact Hx.
+Qed.
+
+Lemma in_removelast_or_last {A} (l: list A) x d : In x l -> In x (removelast l) \/ x = last l d.
+Proof.
+  induction l as [|y l IH]; intros H; [destruct H|]. destruct l as [|z l'].
+  - destruct H as [<-|[]]. right. reflexivity.
+  - destruct H as [<-|H]; [left; left; reflexivity|]. destruct (IH H) as [H1|H1]; [left; right; exact H1|right; exact H1].
+Qed.
+Lemma removelast_map {A B} (f: A -> B) l : removelast (map f l) = map f (removelast l).
+Proof. induction l as [|x l IH]; [reflexivity|]. destruct l as [|y l']; [reflexivity|]. cbn [map removelast] in *. rewrite IH. reflexivity. Qed.
+Lemma last_map {A B} (f: A -> B) l x d : last (map f (x :: l)) d = f (last (x :: l) x).
+Proof. revert x. induction l as [|y l IH]; intros x; [reflexivity|]. change (last (map f (x :: y :: l)) d) with (last (map f (y :: l)) d). rewrite (IH y). change (last (x :: y :: l) x) with (last (y :: l) x). f_equal. apply last_nonempty. Qed.
+
+Lemma rea_path_direct p : small p -> path_summary p (rea_path (Val (frag_spec p))) = 1 :: show_out show_packet berr_code (@Val packet berr p).
+Proof.
+  intros Hs. destruct (reasm_direct p Hs) as [f0 [rest [b0 [bs [Hf [Hn [Ht [Hbefore [Hl0 Hbuild]]]]]]]]].
+  assert (Hfl: forall x, In x (b0 :: bs) -> exists n, frames_left x = Val n).
+  { intros x Hx. destruct (in_removelast_or_last _ x b0 Hx) as [H|H]; [destruct (Hbefore x H) as [n [Hn' _]]; exists n; exact Hn'|subst x; exists 0; exact Hl0]. }
+  destruct (Hfl b0 (or_introl eq_refl)) as [l0 Hl0'].
+  rewrite Hf. unfold rea_path. rewrite Hn. cbn [bind]. rewrite Hl0'. cbn [bind].
+  rewrite (rea_feed_trace rest (S (length rest)) b0 1 bs [l0] false Ht).
+  2:{ intros x Hx. destruct (Hbefore x Hx) as [n [_ [_ Hb]]]. exact Hb. }
+  2:{ intros x Hx. apply Hfl. right. exact Hx. }
+  cbn [bind rev app]. rewrite Hbuild.
+  assert (Hlefts: l0 :: map flN bs = map flN (b0 :: bs)) by (cbn [map]; unfold flN at 2; rewrite Hl0'; reflexivity). rewrite Hlefts.
+  unfold path_summary. rewrite app_comm_cons, Hlefts, take_app. cbn [app b2N].
+  rewrite removelast_map, (last_map flN bs b0 1). unfold flN at 2. rewrite Hl0. rewrite N.eqb_refl.
+  assert (Hnz: forallb (fun x => negb (x =? 0)) (map flN (removelast (b0 :: bs))) = true).
+  { apply forallb_forall. intros y Hy. apply in_map_iff in Hy. destruct Hy as [x [<- Hx]]. destruct (Hbefore x Hx) as [n [Hn' [Hpos _]]].
+    unfold flN. rewrite Hn'. apply negb_true_iff, N.eqb_neq. lia. }
+  rewrite Hnz. reflexivity.
+Qed.
+
+Lemma split3_lp a b c : split3 ((nlen a :: a) ++ (nlen b :: b) ++ (nlen c :: c)) = Some [a; b; c].
+Proof.
+  unfold split3. cbn [app]. rewrite take_app. cbn [app]. rewrite take_app.
+  rewrite <- (app_nil_r c) at 2. rewrite take_app. reflexivity.
+Qed.
+
+Theorem ok_C02_accepts_model p : wf_packet p = true -> small p -> ok_C02 (show_packet p) (run_REA (show_packet p)) = [].
+Proof.
+  intros Hw Hs. unfold run_REA, ok_C02. rewrite <- (app_nil_r (show_packet p)), parse_show_packet.
+  rewrite to_frames_spec by assumption. rewrite (via_can_id p Hw Hs), (via_usart_id p Hw Hs).
+  destruct (wf_packet p && smallb p); [|reflexivity]. cbn [negb].
+  rewrite split3_lp. cbn [combine map concat fst snd]. rewrite (rea_path_direct p Hs), list_eqb_refl. reflexivity.
+Qed.
